@@ -538,21 +538,14 @@ fn main() {
             ],
             required_classes: &[
                 "verify:accept",
-                "verify:reject:height",
-                "verify:reject:chain-id",
-                "verify:reject:time-order",
-                "verify:reject:time-future",
-                "verify:reject:next-validators",
-                "verify:reject:parent-hash",
-                "verify:reject:not-enough-power",
-                "verify:reject:bad-signature",
+                // whatever error kind the code reports (the statement only says "succeeds only if")
+                "verify:reject*",
                 "verify_adjacent:accept",
-                "verify_adjacent:reject:not-adjacent",
+                "verify_adjacent:reject*",
                 "verify_range:accept",
-                "verify_range:reject:not-adjacent",
-                "verify_range:reject:parent-hash",
+                "verify_range:reject*",
                 "verify_adjacent_range:accept",
-                "verify_adjacent_range:reject:not-adjacent",
+                "verify_adjacent_range:reject*",
             ],
             exhaustive: true,
         },
